@@ -305,6 +305,22 @@ def run(ctx):
     from checks.recordloop import check_raw_record_fields
     check_raw_record_fields(ctx, 'C01.R6', rl)
 
+    # a residue tagged N+ by the sequential reader is only a chain start if its
+    # nitrogen is not peptide-bonded to a preceding residue: the reader consumes
+    # the "next residue" latch on ATOM records only, so a chain that begins with a
+    # HETATM residue (MSE, ACE, ...) hands the tag to its second residue
+    ipg_f = gmod.func('is_protein_group')
+    nterm_rets = [r for r in walk_no_nested(ipg_f) if isinstance(r, ast.Return)
+                  and isinstance(r.value, ast.Call) and call_name(r.value) == 'NtermGroup']
+    bonded_checked = bool(nterm_rets) and all(
+        any(any(isinstance(x, ast.Attribute) and x.attr == 'bonded_atoms' for x in ast.walk(e))
+            for e, _pol in facts_at(r, ipg_f)) for r in nterm_rets)
+    ctx.ob('C01.R6', 'N+:not-peptide-bonded-to-a-preceding-residue', bonded_checked,
+           'an N-terminus group is created for a tagged nitrogen only after looking at its bonds '
+           '(no carbonyl carbon of another residue attached); the tag alone is not proof of a '
+           'chain start when the first residue of the chain is a HETATM record', gmod,
+           nterm_rets[0] if nterm_rets else ipg_f)
+
     # ------------------------------------------------------------------ R7
     setup = gmod.func('Group.setup')
     reads = {}
